@@ -1,2 +1,186 @@
--- stub: replaced when the area is built
-def main : IO Unit := pure ()
+import Nstd.Common.Basic
+import Nstd.Life.Model
+/-
+  Line protocol of the Life area (same op lines as harness/life.cpp).
+  argv[1] = C04:  `<K> <var0> | <var1> # c= d= live= u= dd= ov= b= t= # <events of this op>`
+  argv[1] = C05:  `<K> <var0> | <var1> # u= dd= ov=`   elements flagged s (kept its slot, untouched) / n (constructed by this op)
+-/
+open Nstd.Common
+namespace Nstd.Life
+
+def Kind.letter : Kind → String
+  | .A => "A" | .L => "L" | .M => "M" | .U => "U" | .H => "H" | .S => "S" | .P => "P" | .Q => "Q"
+
+def Kind.ofLetter : String → Option Kind
+  | "A" => some .A | "L" => some .L | "M" => some .M | "U" => some .U
+  | "H" => some .H | "S" => some .S | "P" => some .P | "Q" => some .Q | _ => none
+
+def fld (f : Nat) : String := if f = 0 then "k" else "v"
+
+def Loc.str : Loc → String
+  | .heap b i f => s!"{b}.{i}{fld f}"
+  | .sent c f => s!"s{c.k.letter}{c.v}{fld f}"
+  | .ext => "x"
+
+def Ev.str : Ev → String
+  | .alloc b n => s!"N{b}:{n}"
+  | .free b => s!"F{b}"
+  | .ctor d none => s!"C{d.str}"
+  | .ctor d (some s) => s!"C{d.str}<{s.str}"
+  | .assign d s => s!"A{d.str}<{s.str}"
+  | .dtor d => s!"D{d.str}"
+
+def pay : Option Nat → String
+  | some p => toString p
+  | none => "-1"
+
+def isCtorAt (b i : Nat) : Ev → Bool
+  | .ctor (.heap b' i' _) _ => b = b' && i = i'
+  | _ => false
+
+def showVar (st : State) (c05 : Bool) (c : Var) : String :=
+  if c.k = .A then
+    let x := st.arrs c.v
+    let es := match x.store with
+      | some s => (List.range x.size).map fun i => pay (st.mem (.heap s i 1))
+      | none => []
+    s!"{x.cap}/" ++ (if es.isEmpty then "-" else " ".intercalate es)
+  else
+    let n := st.nodes c
+    let es := n.items.map fun it =>
+      let body :=
+        if c.k = .L || c.k = .P then pay (valOf st it)
+        else if c.k = .S then pay (keyOf st it)
+        else pay (keyOf st it) ++ ":" ++ pay (valOf st it)
+      if c05 then body ++ (if st.log.any (isCtorAt it.b it.i) then "n" else "s") else body
+    if es.isEmpty then "-" else " ".intercalate es
+
+structure DState where
+  st : State
+  c : Nat
+  d : Nat
+  b : Nat
+
+def count (p : Ev → Bool) (l : List Ev) : Nat := (l.filter p).length
+
+def DState.absorb (ds : DState) (st : State) : DState :=
+  { st := { st with log := [] }
+    c := ds.c + count (fun e => match e with | .ctor .. => true | _ => false) st.log
+    d := ds.d + count (fun e => match e with | .dtor .. => true | _ => false) st.log
+    b := ds.b + count (fun e => match e with | .alloc .. => true | _ => false) st.log
+          - count (fun e => match e with | .free .. => true | _ => false) st.log }
+
+def dinit : DState := (DState.absorb ⟨empty, 0, 0, 0⟩ init)
+
+def counters (ds : DState) (c05 : Bool) (log : List Ev) : String :=
+  if c05 then " # u=0 dd=0 ov=0"
+  else s!" # c={ds.c} d={ds.d} live={ds.c - ds.d} u=0 dd=0 ov=0 b={ds.b} t=0 # " ++
+    (if log.isEmpty then "-" else " ".intercalate (log.map Ev.str))
+
+def posArg (s : String) : Option (Option Nat) := s.toNat?.map some
+
+def parseOp (k : Kind) (name : String) (a : List Nat) : Option Op :=
+  match name, a with
+  | "new", [v] => some (.new ⟨k, v⟩)
+  | "newcap", [v, n] => some (.newcap ⟨k, v⟩ n)
+  | "copy", [v, w] => some (.copy ⟨k, v⟩ w)
+  | "assign", [v, w] => some (.assign ⟨k, v⟩ w)
+  | "swap", [v, w] => some (.swap ⟨k, v⟩ w)
+  | "clear", [v] => some (.clear ⟨k, v⟩)
+  | _, _ =>
+  match k, name, a with
+  | .A, "append", [v, x] => some (.aAppend v x)
+  | .A, "appendref", [v, i] => some (.aAppendRef v i)
+  | .A, "appendarr", [v, w] => some (.aAppendArr v w)
+  | .A, "appendptr", [v, i, n] => some (.aAppendPtr v i n)
+  | .A, "resize", [v, n, x] => some (.aResize v n x)
+  | .A, "resizeref", [v, n, i] => some (.aResizeRef v n i)
+  | .A, "reserve", [v, n] => some (.aReserve v n)
+  | .A, "remove", [v, i] => some (.aRemove v i)
+  | .A, "removeit", [v, i] => some (.aRemoveIt v i)
+  | .A, "set", [v, i, x] => some (.aSet v i x)
+  | .L, "append", [v, x] => some (.lInsert v none x)
+  | .L, "prepend", [v, x] => some (.lInsert v (some 0) x)
+  | .L, "insert", [v, p, x] => some (.lInsert v (some p) x)
+  | .L, "appendref", [v, i] => some (.lInsertRef v none i)
+  | .L, "prependref", [v, i] => some (.lInsertRef v (some 0) i)
+  | .L, "insertref", [v, p, i] => some (.lInsertRef v (some p) i)
+  | .L, "appendlist", [v, w] => some (.lInsertList v none w)
+  | .L, "prependlist", [v, w] => some (.lInsertList v (some 0) w)
+  | .L, "insertlist", [v, p, w] => some (.lInsertList v (some p) w)
+  | .L, "remove", [v, i] => some (.lRemove v i)
+  | .L, "removeval", [v, x] => some (.lRemoveVal v x)
+  | .L, "removevalref", [v, i] => some (.lRemoveValRef v i)
+  | .L, "set", [v, i, x] => some (.lSet v i x)
+  | .M, "insert", [v, kk, x] => some (.mInsert ⟨.M, v⟩ kk x)
+  | .M, "inserthint", [v, p, kk, x] => some (.mInsertHint ⟨.M, v⟩ p kk x)
+  | .M, "insertref", [v, kk, i] => some (.mInsertRef ⟨.M, v⟩ kk i)
+  | .M, "insertmap", [v, w] => some (.mInsertMap ⟨.M, v⟩ w)
+  | .M, "remove", [v, kk] => some (.mRemove ⟨.M, v⟩ kk)
+  | .M, "removeat", [v, i] => some (.mRemoveAt ⟨.M, v⟩ i)
+  | .M, "set", [v, i, x] => some (.mSet ⟨.M, v⟩ i x)
+  | .U, "insert", [v, kk, x] => some (.mInsert ⟨.U, v⟩ kk x)
+  | .U, "insertref", [v, kk, i] => some (.mInsertRef ⟨.U, v⟩ kk i)
+  | .U, "removeat", [v, i] => some (.mRemoveAt ⟨.U, v⟩ i)
+  | .U, "set", [v, i, x] => some (.mSet ⟨.U, v⟩ i x)
+  | .H, "append", [v, kk, x] => some (.hInsert v none kk x)
+  | .H, "prepend", [v, kk, x] => some (.hInsert v (some 0) kk x)
+  | .H, "insert", [v, p, kk, x] => some (.hInsert v (some p) kk x)
+  | .H, "appendref", [v, kk, i] => some (.hAppendRef v kk i)
+  | .H, "remove", [v, kk] => some (.hRemove v kk)
+  | .H, "removeat", [v, i] => some (.hRemoveAt v i)
+  | .H, "set", [v, i, x] => some (.hSet v i x)
+  | .S, "append", [v, kk] => some (.sInsert v none kk)
+  | .S, "prepend", [v, kk] => some (.sInsert v (some 0) kk)
+  | .S, "insert", [v, p, kk] => some (.sInsert v (some p) kk)
+  | .S, "appendref", [v, i] => some (.sAppendRef v i)
+  | .S, "appendset", [v, w] => some (.sAppendSet v w)
+  | .S, "remove", [v, kk] => some (.sRemove v kk)
+  | .S, "removeref", [v, i] => some (.sRemoveRef v i)
+  | .S, "removeset", [v, w] => some (.sRemoveSet v w)
+  | .S, "removeat", [v, i] => some (.sRemoveAt v i)
+  | .P, "append", [v, x] => some (.pAppend v x)
+  | .P, "append0", [v] => some (.pAppend v 0)
+  | .P, "remove", [v, i] => some (.pRemove v i)
+  | .P, "removeref", [v, i] => some (.pRemoveRef v i)
+  | .Q, "append", [v, kk, x] => some (.qAppend v kk x)
+  | .Q, "remove", [v, kk] => some (.qRemove v kk)
+  | .Q, "removeat", [v, i] => some (.qRemoveAt v i)
+  | .Q, "removeref", [v, i] => some (.qRemoveRef v i)
+  | _, _, _ => none
+
+def stepLine (c05 : Bool) (ds : DState) (ws : List String) : DState × String :=
+  match ws with
+  | ["reset"] => (dinit, "reset")
+  | ["destroyall"] =>
+    match execAll ds.st destroyAll with
+    | none => (dinit, "FAULT")
+    | some st1 =>
+      let ds1 := ds.absorb st1
+      let out := "end" ++ counters ds1 c05 st1.log
+      match execAll ds1.st createAll with
+      | none => (dinit, "FAULT")
+      | some st2 => (ds1.absorb st2, out)
+  | opname :: args =>
+    match opname.splitOn ".", args.mapM String.toNat? with
+    | [kl, name], some a =>
+      match Kind.ofLetter kl with
+      | none => (ds, "bad-op")
+      | some k =>
+        match parseOp k name a with
+        | none => (ds, "bad-op")
+        | some op =>
+          match stepRes ds.st op with
+          | .bad => (ds, "bad-op")
+          | .fault => (dinit, "FAULT")
+          | .ok st' =>
+            let ds' := ds.absorb st'
+            let out := k.letter ++ " " ++ showVar st' c05 ⟨k, 0⟩ ++ " | " ++ showVar st' c05 ⟨k, 1⟩ ++ counters ds' c05 st'.log
+            (ds', out)
+    | _, _ => (ds, "bad-op")
+  | [] => (ds, "bad-op")
+
+end Nstd.Life
+
+def main (args : List String) : IO Unit :=
+  Nstd.Common.ioLoop Nstd.Life.dinit (Nstd.Life.stepLine (args.head? == some "C05"))
